@@ -1,4 +1,5 @@
 import Folang.Model.Unify
+import Folang.Props.C02
 /-
 C02 — the reference unifier computes most general unifiers (principal types).
 -/
@@ -288,6 +289,29 @@ theorem unifyC_complete (f : Nat) (eqs : List Eqn) (h : unifyC f eqs = .clash) :
     · rw [if_neg hc] at h; cases h
   | clash => exact unify_complete f eqs [] hr θ hu
   | fuel => rw [hr] at h; cases h
+
+/-! ### the numbering of leftover variables is the hoisting rule of the compiler model -/
+
+theorem indexOf_of_getElem? : ∀ (l : List String), l.Nodup → ∀ (k : Nat) (v : String), l[k]? = some v → indexOf l v = k
+  | [], _, k, v, h => by simp at h
+  | x :: xs, hnd, 0, v, h => by
+    simp only [List.getElem?_cons_zero, Option.some.injEq] at h
+    simp [indexOf, h]
+  | x :: xs, hnd, k + 1, v, h => by
+    simp only [List.getElem?_cons_succ] at h
+    have hnd' := List.nodup_cons.mp hnd
+    have hv : v ∈ xs := List.mem_of_getElem? h
+    have hne : x ≠ v := fun e => hnd'.1 (e ▸ hv)
+    simp only [indexOf, hne, if_false]
+    rw [indexOf_of_getElem? xs hnd'.2 k v h]
+
+/-- the oracle numbers a leftover variable by its position among the first occurrences — exactly the
+`T{k}` the hoisting model of the compiler gives it (`hoist_first_occurrence`, Props/C02.lean) -/
+theorem principal_numbering_is_hoist (occ : List String) (k : Nat) (v : String)
+    (h : (distinct occ)[k]? = some v) :
+    indexOf (distinct occ) v = k ∧ (hoistNames occ)[k]? = some (v, "T" ++ toString k) :=
+  ⟨indexOf_of_getElem? _ (Folang.Props.C02.distinct_nodup occ) k v h, Folang.Props.C02.hoist_first_occurrence occ k v h⟩
+
 
 /-! non-vacuity: `[P0] ~ P1`, `(P1, 1) ~ (P2, P3)` -/
 def exEqs : List Eqn :=
